@@ -66,7 +66,7 @@ def apply_history(shape, hist, sdef, via='dict', work=None, nevaluators=1):
 
 
 def short(hist):
-    return [[h['op'], h.get('name') or W.addr(h['x'])] + ([h['v']['n']] if h['op'] in ('set', 'setname') else []) for h in hist]
+    return [[h['op'], h.get('name') or W.addr(h['x'])] + ([h['v'].get('n', h['v'].get('v'))] if h['op'] in ('set', 'setname') else []) for h in hist]
 
 
 class Worker:
@@ -121,13 +121,14 @@ def run(run):
         if rb.violated != 'NoStale':
             raise xl.MachineryError(f'design variant {bad} was not rejected by TLC (NoStale)')
         run.laws[f'variant {bad} rejected'] = rb.violated
-    cfg = 'C04_cases.cfg' if quick else 'C04_cases_thorough.cfg'
+    blocks = []
+    for cfg, maxlen in ((('C04_cases.cfg', 3), ('C04_cases_se.cfg', 4)) if quick else (('C04_cases_thorough.cfg', 4), ('C04_cases_se_thorough.cfg', 5))):
+        r = run.tlc('MC_C04', cfg, dump=True, timeout=2400)
+        blocks += [b for b in pool.dump_blocks(r.dump) if b.count('op |->') >= maxlen + 1]   # maximal histories (obs + hist entries)
     maxlen = 4 if quick else 5
-    r = run.tlc('MC_C04', cfg, dump=True, timeout=1800)
-    blocks = [b for b in pool.dump_blocks(r.dump) if b.count('op |->') >= maxlen + 1]   # maximal histories (obs + hist entries)
     run.notes['histories_by_shape'] = replay_histories(run, blocks, maxlen)
-    run.rule = (f'all histories of length {maxlen} of Set(input,v) | SetByName | Evaluate(cell) | Get(cell) on 5 model shapes '
-                '(chain, diamond with repeated reference, sum over a range with a formula member, named input, cross-sheet pair); '
+    run.rule = (f'all histories of length {maxlen - 1} of Set(input,v) | SetByName | Evaluate(cell) | Get(cell), and of length {maxlen} of Set | Evaluate, on 7 model shapes '
+                '(chain, diamond with repeated reference, sum over a range with a formula member, overlapping ranges, named input, cross-sheet pair, the same formula text on two sheets); values set include TRUE over a stored 1; '
                 'after every step the response and the stored value of every set/evaluated cell are compared with the specification state; '
                 'every history is a distinct TLC state (history variable)')
     run.exhaustive = True
